@@ -227,7 +227,7 @@ def _compute_checksum(decompressed_fields: List[Tuple[str, Buffer]], rule_field_
         ipv4_source_address: Buffer = fields_values[ipv4_source_address_position]
         ipv4_destination_address: Buffer = fields_values[ipv4_source_address_position+1]
         pseudo_header_zero: Buffer = Buffer(content=b'x\00', length=8)
-        pseudo_header_protocol: Buffer = Buffer(content=b'\x11', length=16)
+        pseudo_header_protocol: Buffer = Buffer(content=b'\x11', length=8)
         pseudo_header_length: Buffer = Buffer(content=udp_total_length.to_bytes(2, 'big'), length=16)
         pseudo_header: Buffer = ipv4_source_address + ipv4_destination_address  + pseudo_header_zero + pseudo_header_protocol + pseudo_header_length
 
